@@ -68,6 +68,24 @@ func (g *textGen) termText(t Term) []string {
 	case 's':
 		return []string{"\"" + t.N + "\""}
 	case 'd':
+		// the same instant written in the ways RFC 3339 allows: fractional seconds (cut off,
+		// never rounded) and numeric zone offsets
+		if g.r != nil && g.wild && g.r.Chance(1, 3) {
+			frac := Pick(g.r, []string{"", ".5", ".999999", ".25", ".0"})
+			off := Pick(g.r, []int{0, 0, 2 * 3600, -(7*3600 + 30*60), 14 * 3600})
+			tt := time.Unix(int64(t.D), 0).In(time.FixedZone("", off))
+			zone := "Z"
+			if off != 0 || g.r.Chance(1, 4) {
+				sign, a := "+", off
+				if a < 0 {
+					sign, a = "-", -a
+				}
+				zone = fmt.Sprintf("%s%02d:%02d", sign, a/3600, a%3600/60)
+			}
+			if tt.Year() >= 1 && tt.Year() <= 9999 {
+				return []string{tt.Format("2006-01-02T15:04:05") + frac + zone}
+			}
+		}
 		return []string{time.Unix(int64(t.D), 0).UTC().Format(time.RFC3339)}
 	case 'b':
 		return []string{"hex:" + fmt.Sprintf("%x", t.B)}
@@ -166,7 +184,8 @@ func (g *textGen) substExpr(e Expr) Expr {
 	return out
 }
 
-var pPredNames = []string{"resource", "operation", "right", "user", "owner", "p", "q", "time", "ns:pred", "a1_b", "query"}
+var pPredNames = []string{"resource", "operation", "right", "user", "owner", "p", "q", "time", "ns:pred", "a1_b", "query",
+	"union", "intersection", "starts_with", "ends_with"} // method names are ordinary identifiers in predicate position
 var pVarNames = append([]string{"x", "y", "0", "var_1", "a:b", "Z9"}, defaultSymbolEdges()...)
 
 // defaultSymbolEdges: the first, the last and a middle entry of the library's default symbol
@@ -187,7 +206,7 @@ func defaultSymbolEdges() []string {
 	}
 	return []string{all[0], all[len(all)/2], all[len(all)-1]}
 }
-var pStrings = []string{"", "a", "file1", "/a/file1.txt", "read", "é", "hello world", "x=1;y", "a,b"}
+var pStrings = []string{"", "a", "file1", "/a/file1.txt", "read", "é", "hello world", "x=1;y", "a,b", "50% off", "100%d/%s"}
 
 func (g *textGen) atomTerm(allowVar bool) Term {
 	r := g.r
@@ -602,6 +621,10 @@ func execParse(cs *Sx) (res string) {
 		for _, e := range pf {
 			if e.IsList && len(e.List) == 2 {
 				n, _ := unhex(e.List[0].Atom)
+				if e.List[1].tag() == "nil" {
+					params[string(n)] = nil // the key is there, the term is not: still unbound
+					continue
+				}
 				t, err := decTerm(e.List[1])
 				if err == nil {
 					params[string(n)] = t.ToBiscuit()
@@ -838,6 +861,31 @@ func runC14(c *Ctx) {
 			errCase{"malformed-bytes-nohex:" + ctx.name, ctx.pre + "hex:zz" + ctx.post},
 			errCase{"variable-in-set:" + ctx.name, ctx.pre + "[1, $y]" + ctx.post},
 		)
+	}
+	// a parameter whose map entry exists but holds no term is as unbound as a missing one
+	for _, txt := range []string{"f({nilp});", "f([{nilp}]);", "check if g($x), $x == {nilp};", "check if g($x), [{nilp}].contains($x);",
+		"h($x) <- g($x, {nilp});", "check if g($x), $x.starts_with({nilp});"} {
+		sx := parseCaseSx("block", txt, map[string]Term{"nilp": {K: 'n'}})
+		res := execCase("PARSE", sx)
+		c.Case("PARSE", c.NewID("err"), sx, res)
+		c.Count("err:nil-parameter:" + strings.SplitN(res, " ", 2)[0])
+		c.NonTrivial(txt)
+		if res != "error" {
+			c.Violate("C14/error-not-reported:nil-parameter", "a parameter bound to nothing is not reported as unbound: "+txt+" -> "+trunc(res, 200),
+				map[string]interface{}{"verb": "PARSE", "case": sx, "text": txt, "go": trunc(res, 600), "want": "error"})
+		}
+	}
+	for _, kind := range []string{"single"} {
+		for _, txt := range []string{"f({nilp})", "h($x) <- g($x, {nilp})", "check if g({nilp})", "allow if g({nilp})"} {
+			sx := parseCaseSx(kind, txt, map[string]Term{"nilp": {K: 'n'}})
+			res := execCase("PARSE", sx)
+			c.Case("PARSE", c.NewID("err"), sx, res)
+			c.NonTrivial(txt)
+			if res != "error" {
+				c.Violate("C14/error-not-reported:nil-parameter", "a parameter bound to nothing is not reported as unbound: "+txt+" -> "+trunc(res, 200),
+					map[string]interface{}{"verb": "PARSE", "case": sx, "text": txt, "go": trunc(res, 600), "want": "error"})
+			}
+		}
 	}
 	errs = append(errs,
 		errCase{"chained-comparison", "check if 1 < 2 < 3;"},
